@@ -154,3 +154,30 @@ func s2SweepCase(w *W, idx, cases int) {
 	w.StatMax("non_filler_state_bytes_swept", int64(span))
 	w.Eval(hashOf("s2sweep", idx), boundaryInside > 0)
 }
+
+// restoreGrowthCase (C07): a collection filled block by block exactly to a block boundary is
+// snapshotted while transactions commit at the snapshot's hook points, among them the insert that
+// opens the next block - before the state is written or after it (the new block then exists in
+// the recorded commits only). The complete stream must restore to the primary as it was when
+// Snapshot returned. (The sources are E5's; C13 cuts them, C07 restores them whole.)
+func restoreGrowthCase(w *W, idx int) {
+	caseID := fmt.Sprintf("E5:restore-growing-source:%d", idx)
+	w.Begin(idx, caseID)
+	src := idx*3 + 2
+	s := buildSnapshotStream(w, src, w.Seed*15485863+int64(src)*179424673)
+	defer s.wd.Close()
+	o := s.restoreFrom(s.data)
+	w.Stat("restores", 1)
+	w.Stat("restores_of_sources_growing_into_a_new_block", 1)
+	switch {
+	case o.hung || o.panic != "":
+		w.Violate(idx, caseID, fmt.Sprintf("Restore of the complete snapshot: hung=%v panic=%s", o.hung, o.panic), "", map[string]any{"phase": 2, "idx": idx})
+	case o.err != nil:
+		w.Violate(idx, caseID, "Restore of the complete snapshot failed: "+o.err.Error(), "", map[string]any{"phase": 2, "idx": idx})
+	default:
+		if d := cmpStates(s.final, o.st, "original", "restored", s.sv); d != "" {
+			w.Violate(idx, caseID, fmt.Sprintf("a %d-block source, %d commits recorded while the snapshot ran (one of them opens block %d): %s", len(s.blockModels), len(s.tail), len(s.blockModels), d), "", map[string]any{"phase": 2, "idx": idx})
+		}
+	}
+	w.Eval(hashOf("restore-growth", idx, len(s.data)), s.dense && len(s.tail) > 0)
+}
